@@ -610,9 +610,11 @@ def _routes(ctx):
                    norm(rets[0])[:120])
     ctx.require(len(impls) >= 2, f'expected the decorator and the external call-data resolvers, found {impls}')
     # (c)
-    fm = repo.mod(RESOLVE)
     n = 0
-    for f in [x for x in ast.walk(fm.tree) if isinstance(x, ast.FunctionDef)]:
+    # (wherever in the forward-reference package the evaluation lives)
+    evals = [(fm_, f) for mn_, fm_ in sorted(repo.modules.items()) if mn_.startswith(FWD)
+             for f in ast.walk(fm_.tree) if isinstance(f, ast.FunctionDef)]
+    for fm, f in evals:
         for c in [x for x in walk_shallow(f) if isinstance(x, ast.Call) and dotted(x.func) == 'eval']:
             n += 1
             t = None
